@@ -147,6 +147,25 @@ def make_decoy(rng, ref, family, cutoff):
     return cg.delete_some(rng, dec, n_res=rng.randint(0, 2), n_atoms=rng.randint(0, 3))
 
 
+def add_conformers(rng, lines):
+    """mark 1-3 heavy side-chain atoms as altLoc A and insert a B conformer right after each, displaced by 0.6-2.5 A towards +-y"""
+    out = []
+    cand = [i for i, l in enumerate(lines) if l[12:16].strip() not in ('N', 'CA', 'C', 'O') and not l[12:16].strip().startswith('H') and l[12:16].strip()]
+    pick = set(rng.sample(cand, min(len(cand), rng.randint(2, 5)))) if cand else set()
+    first = lines[0][21] if lines else ''
+    for i, l in enumerate(lines):
+        if i in pick:
+            # the generated chains face each other along y (first chain below): the B conformer mostly reaches TOWARDS the partner,
+            # so that some residue pair is in contact through the second record only
+            toward = 1 if l[21] == first else -1
+            y = float(l[38:46]) + (toward if rng.random() < 0.8 else -toward) * rng.choice([1.1, 1.9, 2.7, 3.6])
+            out.append(l[:16] + 'A' + l[17:])
+            out.append(l[:16] + 'B' + l[17:38] + '%8.3f' % y + l[46:])
+        else:
+            out.append(l)
+    return out
+
+
 def random_pair(rng, family, long_residues=False):
     for attempt in range(30):
         cutoff = rng.choice(CUTOFFS)
@@ -403,6 +422,17 @@ def cases(ctx):
             rl, dl, cutoff = random_pair(rng, fam, long_residues=True)
             out.append(fnat_case(rl, dl, cutoff, fam, via=rng.choice(['file', 'list'])))
             out[-1]['geometry'] = 'long-residues'
+    # alternate-location conformers: an atom listed twice in its residue (altLoc A and B, second position shifted); both are ATOM
+    # records of non-hydrogen atoms, so either may make the contact (round-8 seed C08-r8m1: the fast route kept the first record per name)
+    for fam in ('self', 'jitter', 'del_res'):
+        for k in range(ctx.scale(2, 12)):
+            rl, dl, cutoff = random_pair(rng, fam)
+            rl2 = add_conformers(rng, rl)
+            dl2 = list(rl2) if fam == 'self' else add_conformers(rng, dl)      # 'self': the decoy IS the reference
+            if near_cutoff(rl2, cutoff) or near_cutoff(dl2, cutoff):
+                continue
+            out.append(fnat_case(rl2, dl2, cutoff, fam, via=rng.choice(['file', 'list'])))
+            out[-1]['geometry'] = 'altloc-conformers'
     for cutoff in (3.0, 5.0, 4.5):
         for k in range(ctx.scale(6, 40)):
             rl, dl, c = lattice_pair(rng, cutoff)
